@@ -42,10 +42,11 @@ const (
 	OpHook
 	OpWait
 	OpAdd
+	OpTryLock
 	nOpKinds
 )
 
-var opNames = [...]string{"start", "lock", "unlock", "rlock", "runlock", "load", "store", "cas", "swap", "poolget", "poolput", "once", "step", "park", "hook", "wait", "add"}
+var opNames = [...]string{"start", "lock", "unlock", "rlock", "runlock", "load", "store", "cas", "swap", "poolget", "poolput", "once", "step", "park", "hook", "wait", "add", "trylock"}
 
 func (k OpKind) String() string { return opNames[k] }
 
@@ -485,7 +486,7 @@ func (m *Mutex) TryLock() bool {
 		return m.real.TryLock()
 	}
 	o := m.state(s)
-	s.point(OpCAS, o, "trylock")
+	s.point(OpTryLock, o, "trylock")
 	if o.held {
 		return false
 	}
@@ -599,7 +600,7 @@ func (m *RWMutex) TryLock() bool {
 		return m.real.TryLock()
 	}
 	o := m.state(s)
-	s.point(OpCAS, o, "trylock")
+	s.point(OpTryLock, o, "trylock")
 	if o.held || o.readers > 0 {
 		return false
 	}
@@ -613,7 +614,7 @@ func (m *RWMutex) TryRLock() bool {
 		return m.real.TryRLock()
 	}
 	o := m.state(s)
-	s.point(OpCAS, o, "tryrlock")
+	s.point(OpTryLock, o, "tryrlock")
 	if o.held {
 		return false
 	}
